@@ -1,1 +1,424 @@
 // harness bodies for h2 src/proto/streams/recv.rs (compiled in-crate as `verif_h`, feature "verif")
+//
+// Receive-side step harnesses (C03, C06.R4, C13.len, C18, C05.refuse, C15).
+//
+// World: one stream record (the target) + ghost aggregate `others_in_flight` for the
+// bytes every other stream holds.  Invariants (assumed pre, asserted post):
+//   R1  recv.in_flight_data = target.in_flight_recv_data + others_in_flight
+//   R2  recv.flow.available + recv.in_flight_data = T   (T = target connection window <= 2^31-1)
+//   R3  target.recv_flow.available + target.in_flight_recv_data = W  (W = initial window in force)
+//       and target.recv_flow.window_size <= target.recv_flow.available
+//   R5  conn.window + conn.in_flight <= 2^31-1 and W - stream.window <= 2^31-1: what the peer may
+//       still send plus what it has sent and we still account for never exceeds the largest
+//       window that can be advertised (keeps the ledger arithmetic inside i32)
+//   R4  everything released (in_flight = 0) and an update is owed => queued
+use super::*;
+use crate::frame::verif_h::mk_data;
+use crate::proto::streams::counts::verif_h as counts_h;
+use crate::proto::streams::flow_control::verif_h as fc_h;
+use crate::proto::streams::state::verif_h as st_h;
+use crate::proto::streams::store::verif_h as store_h;
+use crate::proto::streams::store::Resolve;
+use crate::proto::streams::verif_h::{cfg, cw};
+
+const MAXW: i64 = MAX_WINDOW_SIZE as i64;
+pub(crate) const ID: u32 = 1;
+static ZEROS: [u8; 16] = [0; 16];
+
+pub(crate) struct RWorld {
+    pub recv: Recv,
+    pub counts: Counts,
+    pub store: Store,
+    pub key: store::Key,
+    pub task: Option<Waker>,
+}
+
+#[derive(Clone, Copy)]
+pub(crate) struct RPre {
+    pub t: i64,
+    pub cw: i32,
+    pub ca: i32,
+    pub others: u32,
+    pub wtarget: i64,
+    pub sw: i32,
+    pub sa: i32,
+    pub sfl: u32,
+}
+
+pub(crate) fn conn_flow(r: &Recv) -> (i32, i32) {
+    fc_h::get(&r.flow)
+}
+pub(crate) fn set_refused(r: &mut Recv, v: Option<StreamId>) {
+    r.refused = v;
+}
+pub(crate) fn refused(r: &Recv) -> Option<StreamId> {
+    r.refused
+}
+pub(crate) fn set_ids(r: &mut Recv, next: Result<StreamId, StreamIdOverflow>, last_processed: StreamId, max: StreamId) {
+    r.next_stream_id = next;
+    r.last_processed_id = last_processed;
+    r.max_stream_id = max;
+}
+pub(crate) fn pending_accept_empty(r: &Recv) -> bool {
+    store_h::queue_is_empty(&r.pending_accept)
+}
+pub(crate) fn pending_window_updates_empty(r: &Recv) -> bool {
+    store_h::queue_is_empty(&r.pending_window_updates)
+}
+pub(crate) fn buffer_len(r: &Recv) -> usize {
+    crate::proto::streams::buffer::verif_h::slab_len(&r.buffer)
+}
+
+/// server-side world: stream 1 (peer-initiated), receive half in the given state shape
+pub(crate) fn rworld(state_shape: u8, remote_streaming: bool) -> RWorld {
+    let c = cfg();
+    let mut recv = Recv::new(peer::Dyn::Server, &c);
+    recv.buffer = crate::proto::streams::buffer::verif_h::with_capacity(4);
+    let counts = Counts::new(peer::Dyn::Server, &c);
+    let mut store = Store::new();
+    let id = StreamId::from(ID);
+    let mut stream = Stream::new(id, 0, 0);
+    stream.state = st_h::state_of_shape(state_shape, id);
+    if remote_streaming && state_shape == 3 {
+        st_h::set_inner_open_streaming(&mut stream.state);
+    }
+    stream.ref_count = 1;
+    let key = store_h::insert_slab_only(&mut store, stream);
+    RWorld { recv, counts, store, key, task: None }
+}
+
+pub(crate) fn sym_rpre(w: &mut RWorld) -> RPre {
+    let t: i64 = kani::any();
+    let others: u32 = kani::any();
+    let sfl: u32 = kani::any();
+    let cwv: i32 = kani::any();
+    let wt: i64 = kani::any();
+    let sw: i32 = kani::any();
+    kani::assume(t >= 0 && t <= MAXW && wt >= 0 && wt <= MAXW);
+    kani::assume(others as i64 + sfl as i64 <= MAXW);
+    // R2: available = T - in_flight (may be negative after the target was lowered)
+    let infl = others as i64 + sfl as i64;
+    let ca = t - infl;
+    kani::assume(ca >= -MAXW);
+    kani::assume(cwv >= 0 && cwv as i64 <= MAXW);
+    kani::assume(cwv as i64 + infl <= MAXW); // R5
+    // R3
+    let sa = wt - sfl as i64;
+    kani::assume(sa >= -MAXW);
+    kani::assume(sw as i64 <= sa && sw as i64 >= -MAXW);
+    kani::assume(wt - sw as i64 <= MAXW); // R5
+    fc_h::set(&mut w.recv.flow, cwv, ca as i32);
+    w.recv.in_flight_data = (others + sfl) as WindowSize;
+    w.recv.init_window_sz = wt as WindowSize;
+    let mut p = w.store.resolve(w.key);
+    fc_h::set(&mut p.recv_flow, sw, sa as i32);
+    p.in_flight_recv_data = sfl;
+    RPre { t, cw: cwv, ca: ca as i32, others, wtarget: wt, sw, sa: sa as i32, sfl }
+}
+
+pub(crate) struct RPost {
+    pub cw: i32,
+    pub ca: i32,
+    pub infl: u32,
+    pub sw: i32,
+    pub sa: i32,
+    pub sfl: u32,
+}
+pub(crate) fn rpost(w: &mut RWorld) -> RPost {
+    let (cwv, ca) = conn_flow(&w.recv);
+    let infl = w.recv.in_flight_data;
+    let p = w.store.resolve(w.key);
+    let (sw, sa) = fc_h::get(&p.recv_flow);
+    RPost { cw: cwv, ca, infl, sw, sa, sfl: p.in_flight_recv_data }
+}
+pub(crate) fn assert_rinv(pre: &RPre, q: &RPost) {
+    assert!(q.infl as i64 == q.sfl as i64 + pre.others as i64, "R1: connection in-flight != sum of stream in-flight");
+    assert!(q.ca as i64 + q.infl as i64 == pre.t, "R2: connection credit leaked or invented (available + in_flight != target)");
+    assert!(q.sa as i64 + q.sfl as i64 == pre.wtarget, "R3: stream credit leaked or invented (available + in_flight != initial window)");
+    assert!(q.sw <= q.sa, "R3: stream window above what was made available");
+    assert!(q.cw as i64 <= MAXW && q.sw as i64 <= MAXW, "advertised window above 2^31-1");
+    assert!(q.cw as i64 + q.infl as i64 <= MAXW, "R5: connection window + in-flight above 2^31-1");
+    assert!(pre.wtarget - q.sw as i64 <= MAXW, "R5: stream window too far below the initial window");
+}
+/// R4 for the target stream
+pub(crate) fn assert_r4(w: &mut RWorld) {
+    let p = w.store.resolve(w.key);
+    if p.state.is_recv_streaming() && p.is_recv && p.in_flight_recv_data == 0 && p.recv_flow.unclaimed_capacity().is_some() {
+        assert!(p.is_pending_window_update, "R4: stream owes a WINDOW_UPDATE (everything released) but is not queued - the peer stalls");
+    }
+}
+fn rforget(w: RWorld) {
+    std::mem::forget(w);
+}
+
+// ---------------------------------------------------------------------------
+// recv_data, normal / padded / handle-dropped / window-violation paths
+// ---------------------------------------------------------------------------
+fn step_recv_data(is_recv: bool, padded: bool) {
+    let mut w = rworld(3, true);
+    let pre = sym_rpre(&mut w);
+    {
+        let mut p = w.store.resolve(w.key);
+        p.is_recv = is_recv;
+    }
+    let len: usize = kani::any();
+    kani::assume(len <= 16);
+    let pad: u8 = kani::any();
+    let eos: bool = kani::any();
+    let frame = mk_data(StreamId::from(ID), Bytes::from_static(&ZEROS).slice(..len), eos, if padded { Some(pad) } else { None });
+    let sz = frame.flow_controlled_len();
+    assert!(sz == len + if padded { pad as usize + 1 } else { 0 });
+    let r = {
+        let mut p = w.store.resolve(w.key);
+        w.recv.recv_data(frame, &mut p)
+    };
+    // the 4-line glue of `Inner::recv_data`'s closure: a stream error after the frame
+    // was charged releases the connection-level credit automatically
+    if let Err(Error::Reset(..)) = &r {
+        w.recv.release_connection_capacity(sz as WindowSize, &mut None);
+    }
+    let q = rpost(&mut w);
+    match &r {
+        Ok(()) => {
+            assert!((sz as i64) <= pre.cw as i64, "C09.flow: DATA beyond the connection window accepted");
+            assert!((sz as i64) <= (if pre.sw > 0 { pre.sw as i64 } else { 0 }), "C09.flow: DATA beyond the stream window accepted");
+            assert!(q.cw as i64 == pre.cw as i64 - sz as i64, "connection window not charged the flow-controlled length");
+            if is_recv {
+                assert!(q.sw as i64 == pre.sw as i64 - sz as i64, "stream window not charged the flow-controlled length");
+                let padding = (sz - len) as u32;
+                assert!(q.sfl == pre.sfl + len as u32, "in-flight: only the payload stays with the application (padding auto-released)");
+                assert!(q.sa as i64 == pre.sa as i64 - sz as i64 + padding as i64);
+                assert_rinv(&pre, &q);
+                // delivered exactly when there is something to deliver
+                let p = w.store.resolve(w.key);
+                assert!(p.pending_recv.is_empty() == (len == 0 && !eos), "event queued iff payload non-empty or END_STREAM");
+            } else {
+                // handle dropped: connection credit comes straight back, stream untouched
+                assert!(q.infl == pre.others + pre.sfl && q.ca as i64 + q.infl as i64 == pre.t, "R2 on the dropped-handle path");
+                assert!(q.sfl == pre.sfl && q.sa == pre.sa);
+            }
+        }
+        Err(Error::Reset(_, reason, Initiator::Library)) => {
+            assert!(*reason == Reason::FLOW_CONTROL_ERROR, "only a stream-window violation is possible here");
+            assert!((sz as i64) > (if pre.sw > 0 { pre.sw as i64 } else { 0 }), "legal DATA rejected with a stream error");
+            // credit is back immediately, nothing delivered
+            assert!(q.infl == pre.others + pre.sfl && q.ca == pre.ca, "C03: credit of discarded DATA not returned");
+            assert!(q.sfl == pre.sfl && q.sa == pre.sa && q.sw == pre.sw);
+        }
+        Err(Error::GoAway(_, reason, Initiator::Library)) => {
+            assert!(*reason == Reason::FLOW_CONTROL_ERROR);
+            assert!((sz as i64) > pre.cw as i64, "legal DATA rejected with a connection error");
+        }
+        Err(_) => panic!("unexpected error class"),
+    }
+    kani::cover!(r.is_ok() && padded && pad > 0, "ok_padded");
+    kani::cover!(matches!(&r, Err(Error::Reset(..))), "stream_window_violation");
+    kani::cover!(matches!(&r, Err(Error::GoAway(..))), "conn_window_violation");
+    kani::cover!(true, "end");
+    std::mem::forget(r);
+    rforget(w);
+}
+pub fn c03_data_normal() { step_recv_data(true, false) }
+pub fn c03_data_padded() { step_recv_data(true, true) }
+pub fn c03_data_handle_dropped() { step_recv_data(false, true) }
+
+/// DATA on a locally reset stream / ignore_data: charged to the connection window
+/// and credited back at once; nothing delivered.
+pub fn c03_ignore_locally_reset() {
+    let mut w = rworld(7, false);
+    // make the reset local (Library): frames are ignored "for some time"
+    {
+        let mut p = w.store.resolve(w.key);
+        p.state.set_reset(StreamId::from(ID), Reason::CANCEL, Initiator::Library);
+    }
+    let pre = sym_rpre(&mut w);
+    let len: usize = kani::any();
+    kani::assume(len <= 16);
+    let frame = mk_data(StreamId::from(ID), Bytes::from_static(&ZEROS).slice(..len), kani::any(), None);
+    let r = {
+        let mut p = w.store.resolve(w.key);
+        w.recv.recv_data(frame, &mut p)
+    };
+    let q = rpost(&mut w);
+    match &r {
+        Ok(()) => {
+            assert!((len as i64) <= pre.cw as i64);
+            assert!(q.cw as i64 == pre.cw as i64 - len as i64, "ignored DATA must still be charged to the connection window");
+            assert!(q.infl == pre.others + pre.sfl && q.ca == pre.ca, "C03.ignore: credit of ignored DATA not returned");
+            assert!(q.sw == pre.sw && q.sa == pre.sa && q.sfl == pre.sfl, "ignored DATA touched the stream ledger");
+            let p = w.store.resolve(w.key);
+            assert!(p.pending_recv.is_empty(), "DATA on a reset stream was delivered");
+        }
+        Err(Error::GoAway(_, reason, _)) => {
+            assert!(*reason == Reason::FLOW_CONTROL_ERROR && (len as i64) > pre.cw as i64);
+        }
+        Err(_) => panic!("DATA on a locally reset stream must be tolerated (race)"),
+    }
+    kani::cover!(r.is_ok() && len > 0, "ignored");
+    kani::cover!(true, "end");
+    std::mem::forget(r);
+    rforget(w);
+}
+
+// ---------------------------------------------------------------------------
+// release_capacity / release_connection_capacity
+// ---------------------------------------------------------------------------
+pub fn c03_release_capacity() {
+    let mut w = rworld(3, true);
+    let pre = sym_rpre(&mut w);
+    let with_task: bool = kani::any();
+    if with_task {
+        w.task = Some(cw::waker(1));
+    }
+    let wakes0 = cw::wakes(1);
+    let n: u32 = kani::any();
+    let r = {
+        let mut p = w.store.resolve(w.key);
+        w.recv.release_capacity(n, &mut p, &mut w.task)
+    };
+    let q = rpost(&mut w);
+    match r {
+        Ok(()) => {
+            assert!(n <= pre.sfl, "released more than the application holds");
+            assert!(q.sfl == pre.sfl - n && q.infl == pre.others + pre.sfl - n);
+            assert!(q.cw == pre.cw && q.sw == pre.sw, "release must not move the advertised windows (only WINDOW_UPDATE does)");
+            assert_rinv(&pre, &q);
+            assert_r4(&mut w);
+            // C06.Q3: an owed update (stream or connection) wakes the connection task
+            let p = w.store.resolve(w.key);
+            let owed = p.recv_flow.unclaimed_capacity().is_some() || w.recv.flow.unclaimed_capacity().is_some();
+            if owed && with_task {
+                assert!(cw::wakes(1) == wakes0 + 1 && w.task.is_none(), "C06: WINDOW_UPDATE owed but the connection task was not woken");
+            }
+        }
+        Err(_) => {
+            assert!(n > pre.sfl, "legal release refused");
+            assert!(q.sfl == pre.sfl && q.infl == pre.others + pre.sfl && q.ca == pre.ca && q.sa == pre.sa, "state changed on Err");
+        }
+    }
+    kani::cover!(r.is_ok() && q.sfl == 0, "all_released");
+    kani::cover!(r.is_err(), "too_big");
+    kani::cover!(true, "end");
+    rforget(w);
+}
+
+/// C03.update (fallback form, see DESIGN): what `send_connection_window_update` /
+/// `send_stream_window_updates` do besides buffering the frame is
+/// `incr = unclaimed_capacity(); inc_window(incr)`.  For every R2/R3 state that
+/// leaves the window equal to `available`, never above the configured target.
+pub fn c03_update_never_over_credits() {
+    let mut w = rworld(3, true);
+    let pre = sym_rpre(&mut w);
+    // connection level
+    let (cwv, ca) = conn_flow(&w.recv);
+    if let Some(incr) = w.recv.flow.unclaimed_capacity() {
+        assert!(incr >= 1 && incr as i64 <= MAXW, "increment outside 1..=2^31-1");
+        assert!(incr as i64 == ca as i64 - cwv as i64);
+        w.recv.flow.inc_window(incr).expect("unexpected flow control state");
+        let (cw2, ca2) = conn_flow(&w.recv);
+        assert!(cw2 == ca2 && (cw2 as i64) <= pre.t, "C03: connection window advertised above the configured target");
+        assert!(w.recv.flow.unclaimed_capacity().is_none(), "update would be sent twice");
+    }
+    // stream level
+    let mut p = w.store.resolve(w.key);
+    if let Some(incr) = p.recv_flow.unclaimed_capacity() {
+        assert!(incr >= 1 && incr as i64 <= MAXW);
+        p.recv_flow.inc_window(incr).expect("unexpected flow control state");
+        let (sw2, sa2) = fc_h::get(&p.recv_flow);
+        assert!(sw2 == sa2 && (sw2 as i64) <= pre.wtarget, "C03: stream window advertised above the configured initial window");
+        assert!(p.recv_flow.unclaimed_capacity().is_none());
+    }
+    kani::cover!(true, "end");
+    rforget(w);
+}
+
+// ---------------------------------------------------------------------------
+// local reconfiguration
+// ---------------------------------------------------------------------------
+pub fn c03_reconf_target_window() {
+    let mut w = rworld(3, true);
+    let pre = sym_rpre(&mut w);
+    let with_task: bool = kani::any();
+    if with_task {
+        w.task = Some(cw::waker(1));
+    }
+    let wakes0 = cw::wakes(1);
+    let target: u32 = kani::any();
+    kani::assume(target as i64 <= MAXW);
+    let r = w.recv.set_target_connection_window(target, &mut w.task);
+    let q = rpost(&mut w);
+    match r {
+        Ok(()) => {
+            assert!(q.ca as i64 + q.infl as i64 == target as i64, "R2 with the new target");
+            assert!(q.cw == pre.cw && q.infl == pre.others + pre.sfl);
+            if w.recv.flow.unclaimed_capacity().is_some() && with_task {
+                assert!(cw::wakes(1) == wakes0 + 1, "C06: raised target owes an update but the connection was not woken");
+            }
+        }
+        Err(_) => {
+            // only representable-range failures
+            assert!((pre.ca as i64 + (target as i64 - pre.t)) < i32::MIN as i64 || (pre.ca as i64 + (target as i64 - pre.t)) > i32::MAX as i64
+                || pre.ca as i64 + (pre.others as i64 + pre.sfl as i64) > i32::MAX as i64, "legal target refused");
+        }
+    }
+    kani::cover!(r.is_ok() && (target as i64) < pre.t, "lowered");
+    kani::cover!(r.is_ok() && (target as i64) > pre.t, "raised");
+    kani::cover!(true, "end");
+    rforget(w);
+}
+
+/// apply_local_settings on one stream (ids map filled through the shim): R3 with the
+/// new initial window; and R4 - the expected finding lives here (lowering the window).
+fn reconf_local_settings(lower: bool) {
+    let c = cfg();
+    let mut recv = Recv::new(peer::Dyn::Server, &c);
+    let counts = Counts::new(peer::Dyn::Server, &c);
+    let mut store = Store::new();
+    let id = StreamId::from(ID);
+    let mut stream = Stream::new(id, 0, 0);
+    stream.state = st_h::state_of_shape(3, id);
+    st_h::set_inner_open_streaming(&mut stream.state);
+    stream.ref_count = 1;
+    let key = store.insert(id, stream).key();
+    let mut w = RWorld { recv, counts, store, key, task: None };
+    let pre = sym_rpre(&mut w);
+    // R4 holds before (in particular: nothing owed-and-unqueued)
+    {
+        let p = w.store.resolve(w.key);
+        kani::assume(!(p.in_flight_recv_data == 0 && p.recv_flow.unclaimed_capacity().is_some()));
+    }
+    let new: u32 = kani::any();
+    kani::assume(new as i64 <= MAXW);
+    if lower {
+        kani::assume((new as i64) < pre.wtarget);
+    } else {
+        kani::assume((new as i64) > pre.wtarget);
+    }
+    let mut s = frame::Settings::default();
+    s.set_initial_window_size(Some(new));
+    let r = w.recv.apply_local_settings(&s, &mut w.store);
+    let q = rpost(&mut w);
+    match &r {
+        Ok(()) => {
+            assert!(w.recv.init_window_sz() == new);
+            assert!(q.sa as i64 + q.sfl as i64 == new as i64, "R3 with the new initial window");
+            assert!(q.sw as i64 - pre.sw as i64 == new as i64 - pre.wtarget, "stream window must move by exactly new - old");
+            assert!(q.sw <= q.sa);
+            assert!(q.ca == pre.ca && q.cw == pre.cw && q.infl == pre.others + pre.sfl, "connection ledger touched");
+            assert_r4(&mut w);
+        }
+        Err(e) => {
+            assert!(matches!(e, Error::GoAway(_, Reason::FLOW_CONTROL_ERROR, Initiator::Library)));
+            // only when the shifted values are not representable
+            let d = new as i64 - pre.wtarget;
+            assert!(pre.sw as i64 + d < i32::MIN as i64 || pre.sw as i64 + d > MAXW || pre.sa as i64 + d > i32::MAX as i64 || pre.sa as i64 + d < i32::MIN as i64,
+                "representable window change refused");
+        }
+    }
+    kani::cover!(r.is_ok(), "applied");
+    kani::cover!(true, "end");
+    std::mem::forget(r);
+    rforget(w);
+}
+pub fn c03_reconf_local_settings_raise() { reconf_local_settings(false) }
+pub fn c03_reconf_local_settings_lower() { reconf_local_settings(true) }
